@@ -101,13 +101,21 @@ def gen_source(rng):
             extra.append("edge_lonlat")
         if e in ("xyz", "both"):
             extra.append("edge_xyz")
-        spec["dialect"] = {"lon360": rng.random() < 0.4, "extra": extra, "xyz_scale": rng.choice([1.0, 1.0, 2.0, 6371.0, 0.5, 1.000003, 0.999996]), "centre_shift": rng.choice([0.0, 0.0, 0.15])}
+        spec["dialect"] = {
+            "lon360": rng.random() < 0.4, "extra": extra, "xyz_scale": rng.choice([1.0, 1.0, 2.0, 6371.0, 0.5, 1.000003, 0.999996]),
+            "centre_shift": rng.choice([0.0, 0.0, 0.15]), "edge_flip": rng.random() < 0.5, "centre_lon360": rng.random() < 0.3,
+            "int_coords": rng.random() < 0.2,
+        }
     elif r < 0.86:
         spec["prov"] = rng.choice(["vertices", "vertices_xyz", "vertices_xyz"])
         spec["dialect"] = {"xyz_scale": rng.choice([1.0, 1.0, 0.5, 2.0, 1.000003])}
     else:
         spec["prov"] = rng.choice(["ugrid_mem", "ugrid_mem_chunked", "ugrid_file"])
         spec["dialect"] = {"lon360": rng.random() < 0.5, "start": rng.choice([0, 1]), "chunks": rng.random() < 0.5}
+    if spec.get("kind") == "mesh" and rng.random() < 0.12:
+        spec["reencode"] = rng.sample(["face_edge_connectivity", "face_lon", "edge_lon", "node_x", "face_x"], rng.randint(0, 3))
+    if spec.get("kind") == "mesh" and rng.random() < 0.12:
+        spec["subset"] = [rng.randrange(1000) for _ in range(rng.randint(1, 6))]
     return spec
 
 
